@@ -318,7 +318,7 @@ def monitor (g : Ghost) (w : List String) (head : String) (rets : List (Nat × S
           fails := fails ++ [("reset_unblocks_all", "-", s!"type {tName t}: callers {x.syncQ} {x.accWaiting} still blocked after ResetFor0RTT")]
       if !g.closed && rets.any (fun r => r.2 != "E:0rtt") then
         fails := fails ++ [("reset_0rtt", "-", s!"a blocked caller returned something else than Err0RTTRejected")]
-      g := { Ghost.fresh g.pers g.b.inLimit g.u.inLimit with kinds := g.kinds, reset := true }
+      g := { Ghost.fresh g.pers g.b.inLimit g.u.inLimit with kinds := g.kinds, reset := true, prevPeer := some (g.b.peerLimit, g.u.peerLimit) }
     else
       g := { g with reset := true, closed := true }
   fails := fails ++ monQuiescent g
@@ -508,6 +508,16 @@ def step (s : St) (op impl : String) : St × StepOut :=
           (if kind == "opensync" && rets.isEmpty then ["opensync:queued"] else []) ++
           (if kind == "accept" && rets.isEmpty then ["accept:blocked"] else []) ++
           (if kind == "del" && res == "ok" && frames.isEmpty && initiatedBy (intOf (w.getD 1 "0")) != m.pers then ["del:deferred-or-no-credit"] else []) ++
+          (match kind, s.g.prevPeer, w with
+            | "params", some (rb, ru), [_, nb, nu] =>
+              -- transport parameters of the handshake that rejected 0-RTT, against the remembered ones
+              let cmp := fun (n r : Int) => if n < r then "smaller" else if n == r then "equal" else "larger"
+              if s.g.b.peerLimit == 0 && s.g.u.peerLimit == 0 then
+                [s!"zrtt:params-bidi-{cmp (intOf nb) rb}", s!"zrtt:params-uni-{cmp (intOf nu) ru}"] else []
+            | "open", some (rb, ru), [_, t] =>
+              let (lim, rem) := if t == "b" then (s.g.b.peerLimit, rb) else (s.g.u.peerLimit, ru)
+              if res == "E:limit-reached" && !s.g.reset && lim < rem then ["zrtt:open-refused-below-remembered-limit"] else []
+            | _, _, _ => []) ++
           (if kind == "maxstreams" && res == "ok" then
              [if m1.outBidi.maxStream != m.outBidi.maxStream || m1.outUni.maxStream != m.outUni.maxStream then "maxstreams:raise" else "maxstreams:stale"] else [])
         let (g', fails) := if s.hasGhost then monitor s.g w head (implRets iw) (implFrames iw) else (s.g, [])
